@@ -112,6 +112,14 @@ func vrtIntrinsic(ex *Exec, fn *ssa.Function, args []Value, site string) Value {
 			b[i] = ex.inputVar(fmt.Sprintf("%s[%d]", nm, i), 8)
 		}
 		return Str{b}
+	case "MapFillRange": // MapFillRange(m, lo, hi, except): m[k] = true for lo <= k < hi, k != except (m must be empty)
+		m := args[0].(*MapV)
+		st := m.St.V.(MapState)
+		if len(st.E) != 0 || st.Base != nil {
+			panic(unsupported("MapFillRange on a non-empty map"))
+		}
+		ex.writeLeaf(m.St, MapState{Base: &MapBase{Lo: args[1].(*T), Hi: args[2].(*T), Except: args[3].(*T), Val: C.True}})
+		return nil
 	case "MapHas": // MapHas(m, k) bool  (ghost read)
 		return ex.mapHas(args[0].(*MapV), args[1].(*T))
 	case "Choose": // Choose(name, lo, hi) int: case split over lo..hi (each value explored as its own path)
